@@ -1109,7 +1109,13 @@ func RWholeText(c *core.Ctx) {
 				n++
 				c.Visit(name)
 				arg := call.Common().Args[idx]
-				_, sliced := arg.(*ssa.Slice)
+				// directly, or on some path (the parameter re-assigned to a slice of itself arrives as a phi)
+				sliced := false
+				for _, l := range append(leaves(arg), arg) {
+					if _, isSl := l.(*ssa.Slice); isSl {
+						sliced = true
+					}
+				}
 				c.Check(!sliced, fmt.Sprintf("%s / decode call #%d is given the whole input", name, cnt), ins.Pos(),
 					"the text handed to the decoder is %s, a slice of the input: what precedes the cut is invisible to lookbehind, \\b and anchors, so this entry point answers differently from the ones that decode the whole string", arg.String())
 			}
